@@ -4,16 +4,16 @@ import MpVerif.C16.Lemmas
 -/
 namespace MpVerif.C16
 
-theorem evalError_mono (c : St) : ErrMono c c.evalError := ⟨rfl, rfl, rfl, rfl, rfl, rfl, fun _ => rfl⟩
+theorem evalError_mono (c : St) : ErrMono c c.evalError := ⟨rfl, rfl, rfl, rfl, rfl, rfl, rfl, fun _ => rfl⟩
 theorem evalError_some (c : St) : c.evalError.err.isSome = true := rfl
-theorem argError_mono (c : St) : ErrMono c c.argError := ⟨rfl, rfl, rfl, rfl, rfl, rfl, fun _ => rfl⟩
+theorem argError_mono (c : St) : ErrMono c c.argError := ⟨rfl, rfl, rfl, rfl, rfl, rfl, rfl, fun _ => rfl⟩
 theorem argError_some (c : St) : c.argError.err.isSome = true := rfl
 
 theorem derivError_mono (c : St) : ErrMono c c.derivError := by
   unfold St.derivError
   cases h : c.err with
-  | none => exact ⟨rfl, rfl, rfl, rfl, rfl, rfl, fun _ => rfl⟩
-  | some k => exact ⟨rfl, rfl, rfl, rfl, rfl, rfl, fun h' => h'⟩
+  | none => exact ⟨rfl, rfl, rfl, rfl, rfl, rfl, rfl, fun _ => rfl⟩
+  | some k => exact ⟨rfl, rfl, rfl, rfl, rfl, rfl, rfl, fun h' => h'⟩
 
 theorem derivError_some (c : St) : c.derivError.err.isSome = true := by
   unfold St.derivError
@@ -113,7 +113,7 @@ theorem checkZeroFuncArgs_deriv (a : Args) (m : Mode) (i : Nat) (c : St)
       have : (checkConstArg a i c).1 = false := by simpa using hf
       exact (checkConstArg_ok a i c).fail this
 
-theorem tick_mono (c : St) : ErrMono c { c with tc := c.tc + 1 } := ⟨rfl, rfl, rfl, rfl, rfl, rfl, id⟩
+theorem tick_mono (c : St) : ErrMono c { c with tc := c.tc + 1 } := ⟨rfl, rfl, rfl, rfl, rfl, rfl, rfl, id⟩
 
 theorem checkDerivArg_ok (o : Oracle) (c : St) : ChkOk c (checkDerivArg o c) := by
   unfold checkDerivArg
